@@ -44,6 +44,10 @@ pub struct RunOut {
     pub events: Vec<String>,
     pub sample: Option<Value>,
     pub decisions: Vec<(u8, u32, u32)>,
+    /// evaluations inside this case (0 = the case is one evaluation)
+    pub evals: u64,
+    /// one hash per distinct non-trivial sub-case (enumeration checks)
+    pub sub_shapes: Vec<u64>,
 }
 
 pub trait Check: Sync {
@@ -246,7 +250,15 @@ fn worker_main(check: &dyn Check, a: &Args, k: u64, w: u64) -> ! {
         progress.set(case);
         let dec = Dec::from_seed(case_seed(a.seed, check.id(), case));
         let out = check.run(case, dec, &opts);
-        runs += 1;
+        runs += out.evals.max(1);
+        for h in &out.sub_shapes {
+            if nt_shapes.len() < SHAPE_CAP {
+                nt_shapes.insert(*h);
+            }
+            if shapes.len() < SHAPE_CAP {
+                shapes.insert(*h);
+            }
+        }
         for (key, v) in &out.counters {
             *counters.entry((*key).to_string()).or_insert(0) += v;
         }
